@@ -489,7 +489,8 @@ impl<D: DataMut, T: UnsignedInteger, BE: Backend> FheUintPrepared<D, T, BE> {
         M: FheUintPrepare<BRA, BE>,
         Scratch<BE>: ScratchTakeCore<BE>,
     {
-        module.fhe_uint_prepare_custom(self, other, bit_start, bit_end, key, scratch);
+        assert!(bit_start <= bit_end, "bit_start: {bit_start} > bit_end: {bit_end}");
+        module.fhe_uint_prepare_custom(self, other, bit_start, bit_end - bit_start, key, scratch);
     }
 
     #[allow(clippy::too_many_arguments)]
@@ -510,6 +511,7 @@ impl<D: DataMut, T: UnsignedInteger, BE: Backend> FheUintPrepared<D, T, BE> {
         M: FheUintPrepare<BRA, BE>,
         Scratch<BE>: ScratchTakeCore<BE>,
     {
-        module.fhe_uint_prepare_custom_multi_thread(threads, self, other, bit_start, bit_end, key, scratch);
+        assert!(bit_start <= bit_end, "bit_start: {bit_start} > bit_end: {bit_end}");
+        module.fhe_uint_prepare_custom_multi_thread(threads, self, other, bit_start, bit_end - bit_start, key, scratch);
     }
 }
